@@ -178,6 +178,15 @@ url_pattern_component<regex_provider>::compile(
     }
   }
 
+#ifdef ADA_URL_ADA_VERIF
+  if (component_type != url_pattern_component_type::REGEXP) {
+    ada_verif_probe(212);
+    if (ada_verif_buggify(112)) {
+      component_type = url_pattern_component_type::REGEXP;
+      exact_match_value.clear();
+    }
+  }
+#endif
   // For simple patterns, skip regex generation and compilation entirely
   if (component_type != url_pattern_component_type::REGEXP) {
     auto pattern_string =
